@@ -91,6 +91,8 @@ def run(ck: Check, only=None):
     block_boundary_loads(ck, quick, lambda atom, name, data, line, t, out: oracle_roundtrip(ck, atom, data[:0] + data, line, t, out, extra={"file": name}) if (not only or atom in only) else None)
     from boundaries import dump_at_part_counts
     dump_at_part_counts(ck, quick)
+    from envmatrix import run_matrix
+    run_matrix(ck, ("C06",))
     reload_same_object(ck)
     from scale import big_dump_identity, big_load_identity
     big_dump_identity(ck)
@@ -112,7 +114,9 @@ def repetition_sweeps(quick):
     guards sit at round numbers nobody would pick by hand), behind each opener and in front of each tail"""
     K = 140 if quick else 330
     from boundaries import mined
-    K = max([K] + [c + 4 for c in mined()[0] if c <= 3000])          # a give-up / rewind limit a changed tree introduced
+    # a give-up / rewind limit a changed tree introduced: its neighbourhood only (the quadratic and cubic splitters make
+    # "every k up to the limit" too expensive)
+    extra_ks = sorted({c + d_ for c in mined()[0] if K <= c <= 3000 for d_ in (-2, -1, 0, 1, 2, 3)})
     plans = {"jsstr": ([b'"', b"'", b"x = '"], [b'\\"', b"\\'", b'"', b"'", b"\\\\", b"a", b"\\u{1}", b"'\n\""], [b"", b"\n", b'"', b"x"]),
              "attrs": ([b"<a", b"<a b", b""], [b" b=c", b' d="e"', b" f", b"<", b">", b"='"], [b"", b">", b"\n", b"'"]),
              "symbol": ([b"", b"x"], [b"{", b"};", b";\n", b"]["], [b"", b"\n", b"y"]),
@@ -124,7 +128,7 @@ def repetition_sweeps(quick):
                 for ti, t in enumerate(tails):
                     if quick and (oi + fi + ti) % 2 and not (oi == 0 and ti == 0):
                         continue
-                    for k in range(0, K):
+                    for k in list(range(0, K)) + extra_ks:
                         if atom in ("line", "char") and o and b"DDEND" not in t:
                             continue
                         yield atom, o + f * k + t
